@@ -4,8 +4,8 @@ import chan_common as cc
 def run(tier, seed):
     return cc.run_check("C09", tier, seed,
         mc_cfgs=(["ChanMC_c05.cfg"], ["ChanMC_c05.cfg", "ChanMC_c05t.cfg"]),
-        profiles=[("async", 2, 200), ("deferred", 2, 100), ("asyncopen", 2, 60), ("asyncopen", 3, 50), ("async", 3, 60)],
-        thorough_profiles=[("async", 2, 4000), ("deferred", 2, 2000), ("deferred", 3, 800), ("asyncopen", 2, 1500), ("asyncopen", 3, 1000), ("async", 3, 1500)],
+        profiles=[("async", 2, 150), ("asyncreest", 2, 250), ("deferred", 2, 80), ("asyncopen", 2, 60), ("asyncopen", 3, 50), ("async", 3, 60)],
+        thorough_profiles=[("async", 2, 4000), ("asyncreest", 2, 5000), ("deferred", 2, 2000), ("deferred", 3, 800), ("asyncopen", 2, 1500), ("asyncopen", 3, 1000), ("async", 3, 1500)],
         assumptions=cc.COMMON_ASSUMPTIONS + [
             "immediate and deferred (queue + flush) ChainMonitor modes; Persist returns InProgress/Completed as the script says; completion is reported through "
             "ChainMonitor::channel_monitor_updated in any order"])
